@@ -31,6 +31,7 @@ def plan(tier, seed):
         jobs.append({"k": "rand", "i": i, "seed": seed})
     jobs.append({"k": "nested", "seed": seed})
     jobs.append({"k": "empty-content", "seed": seed})
+    jobs.append({"k": "diff-glob", "seed": seed})
     return jobs
 
 
@@ -96,6 +97,36 @@ def run_job(job, ctx):
         for c in vbatch.run_batch(ctx, blocks, r.choice(["hash", "c"]), "line-count", model, eol=eol, sig_prefix="C09",
                                   nontrivial_fn=_nontrivial, sets_fn=_sets):
             acc.add(c)
+    elif job["k"] == "diff-glob":
+        # the bound is broken by a change that arrives through a diff while a positional glob selects *another* file:
+        # files named by the diff are validated whatever the globs say
+        out = []
+        for n, (op, bound) in enumerate([("<=", 2), ("<", 3), ("==", 2), (">=", 4), (">", 3)]):
+            for ctxw in (0, 3):
+                a = "# <block name=\"w\" line-count=\"%s%d\">\nx1\nx2\n# </block>\n" % (op, bound)
+                grow = op in ("<=", "<", "==")
+                b = a.replace("x2\n", "x2\nx3\n") if grow else a.replace("x1\nx2\n", "x1\n")
+                other = "# <block name=\"o\" line-count=\">=0\">\ny\n# </block>\n"
+                root = run.make_repo({"src/pkg/a.py": a, "lib/other.py": other}, real_git=True, commit=True)
+                try:
+                    run.write_files(root, {"src/pkg/a.py": b})
+                    diff = run.git(root, "diff", "-U%d" % ctxw)
+                    for glob in (["lib/**"], ["*.toml"], []):
+                        res = run.run(ctx.bin("rel"), glob, root, stdin=diff, env={})
+                        want = models.line_count("\n" + "".join(l + "\n" for l in (["x1", "x2", "x3"] if grow else ["x1"])), "%s%d" % (op, bound))
+                        got = [d.get("data") for f, lst in (res.diagnostics() or {}).items() for d in lst if f == "src/pkg/a.py"]
+                        key = h(["diff-glob", op, bound, ctxw, glob])
+                        sets = {"layout": ["diff+glob" if glob else "diff"], "op": [op]}
+                        if got != ([want] if want else []) or res.rc != (1 if want else 0):
+                            out.append(Case(VIOLATED, key=key, nontrivial=True, sets=sets, sig="C09/diff-glob/%s" % ("missed" if want else "spurious"),
+                                            summary="diff changes src/pkg/a.py to %s lines under line-count=%s%d, globs %s: got %s exit %s, expected %s" % (
+                                                3 if grow else 1, op, bound, glob, got, res.rc, want),
+                                            witness={"diff": diff.decode(), "globs": glob, "observed": res.brief(1500)}))
+                        else:
+                            out.append(Case(HELD, key=key, nontrivial=True, sets=sets, counters={"blocks": 1}))
+                finally:
+                    run.rm(root)
+        return out
     elif job["k"] == "empty-content":
         out = []
         for host, tmpl in (("e.py", '# <block name="%s" line-count="%s"></block>'), ("e.js", '/* <block name="%s" line-count="%s"> *//* </block> */'),
